@@ -228,6 +228,7 @@ def gen_program(
     max_nodes: int = 7,
     name: str | None = "top",
     force_param: str | None = None,
+    p_gate: float = 0.18,
 ) -> dict:
     """General program: DAG + gates + loop blocks + nested / mapped graph nodes + signals.
 
@@ -254,13 +255,13 @@ def gen_program(
     for i in range(slots):
         r = rng.random()
         kind = "fn"
-        if feats["gates"] and r < 0.18 and i < slots - 1:
+        if feats["gates"] and r < p_gate and i < slots - 1:
             kind = "gate"
-        elif feats["nested"] and depth > 0 and 0.18 <= r < 0.30:
+        elif feats["nested"] and depth > 0 and p_gate <= r < p_gate + 0.12:
             kind = "nested"
-        elif feats["maps"] and depth > 0 and 0.30 <= r < 0.38:
+        elif feats["maps"] and depth > 0 and p_gate + 0.12 <= r < p_gate + 0.20:
             kind = "map"
-        elif feats["loops"] and 0.38 <= r < 0.46:
+        elif feats["loops"] and p_gate + 0.20 <= r < p_gate + 0.28:
             kind = "loop"
         if kind == "fn":
             k = rng.randint(0, min(3, len(avail)))
@@ -288,6 +289,7 @@ def gen_program(
                 max_nodes=4,
                 name=f"{prefix}g{i}",
                 force_param=mname,
+                p_gate=p_gate,
             )
             node = {"kind": "graph", "name": f"{prefix}g{i}", "graph": inner, "_slot": i}
             inner_outs = program_outputs(inner)
